@@ -61,13 +61,14 @@ theorem walkPath_root : ∀ (segs : List String) (node : Node) (typ : TyId) (n :
         · cases h
         · split at h
           · cases h
-          · rename_i ret retError _
-            split at h
-            · cases h; rfl
+          · split at h
+            · cases h
             · split at h
-              · cases h
-              · have := ih _ _ _ h
-                simpa [Node.rootOf] using this
+              · cases h; rfl
+              · split at h
+                · cases h
+                · have := ih _ _ _ h
+                  simpa [Node.rootOf] using this
     · rename_i fname fty _
       split at h
       · cases h
@@ -132,28 +133,35 @@ theorem createMapped_rooted (S : List Node) (lhs : Node) (pos : String) (n? : Op
 theorem convArg_root (c : FieldConverter) (rhsNode a : Node) (w : List String)
     (h : ctx.convArg c rhsNode = .ok (some a, w)) : a.rootOf = rhsNode.rootOf := by
   unfold BCtx.convArg at h
-  cases h1 : ctx.castNode c.argTy rhsNode with
-  | error e => simp only [h1] at h; cases h
-  | panic p => simp only [h1] at h; cases h
-  | ok r =>
-    obtain ⟨a1?, w1⟩ := r
-    cases a1? with
-    | some a1 =>
-      simp only [h1] at h
-      cases h
-      exact castNode_root ctx _ _ _ _ h1
-    | none =>
-      simp only [h1] at h
-      split at h
-      · cases h
-      · cases h2 : ctx.castNode (ctx.env.derefPtr c.argTy) rhsNode with
-        | error e => simp only [h2] at h; cases h
-        | panic p => simp only [h2] at h; cases h
-        | ok r2 =>
-          obtain ⟨a2?, w2⟩ := r2
-          simp only [h2] at h
-          cases h
-          exact castNode_root ctx _ _ _ _ h2
+  split at h
+  · cases h
+  · cases h1 : ctx.castNode c.argTy rhsNode with
+    | error e => simp only [h1] at h; cases h
+    | panic p => simp only [h1] at h; cases h
+    | ok r =>
+      obtain ⟨a1?, w1⟩ := r
+      cases a1? with
+      | some a1 =>
+        simp only [h1] at h
+        cases h
+        exact castNode_root ctx _ _ _ _ h1
+      | none =>
+        simp only [h1] at h
+        split at h
+        · cases h
+        · cases h2 : ctx.castNode (ctx.env.derefPtr c.argTy) rhsNode with
+          | error e => simp only [h2] at h; cases h
+          | panic p => simp only [h2] at h; cases h
+          | ok r2 =>
+            obtain ⟨a2?, w2⟩ := r2
+            cases a2? with
+            | none => simp only [h2] at h; cases h
+            | some a2 =>
+              simp only [h2] at h
+              split at h
+              · cases h
+                exact castNode_root ctx _ _ _ _ h2
+              · cases h
 
 theorem createWithConverter_rooted (lhs rhs : Node) (c : FieldConverter) (s : Stmt)
     (h : ctx.createWithConverter lhs rhs c = .ok s) : RootedIn [rhs.rootOf] (reads s) := by
